@@ -125,6 +125,7 @@ class C01(Plan):
         g.one_step(Ns(tier, [0, 1, 2, 3], [0, 1, 2, 3, 4, 5]), [3],
                    lambda c, N, sz: fam_drain(c, N, sz, sc_for(tier, 1)))
         g.one_step(Ns(tier, [0, 1, 2, 3], [0, 1, 2, 3, 4]), [3], fam_drain_forms)
+        g.one_step(ns, [3], fam_extend_ref, elem="u8")
         random_histories(g, tier, 60 if tier == "quick" else 2000,
                          [5, 6, 7, 8, 16, 64] + ([1000] if tier != "quick" else []),
                          40 if tier == "quick" else 200)
@@ -799,6 +800,7 @@ class C17(Plan):
             g.one_step(ns, [3], fam)
             if fam is not fam_constructors:      # from_array / clone_from are only wired for the tracked element type
                 g.one_step(Ns(tier, [0, 1, 2, 3], [0, 1, 2, 3, 4]), [3], fam, elem="u8")
+        g.one_step(ns, [3], fam_extend_ref, elem="u8")
         g.one_step(Ns(tier, [0, 1, 2, 3], [0, 1, 2, 3, 4]), [3], lambda c, N, sz: fam_drain(c, N, sz, sc_for(tier, 1)), elem="u8")
         g.one_step(ns, [3], lambda c, N, sz: ["hash", "clone_keep", "clone_drop", "eq_slice slice " + c.es(sz, default_vals(sz)),
                                               "into_iter n,b", "iter n,b,l,c", "iter_mut n,b"], elem="u8")
